@@ -450,6 +450,12 @@ func (le *LockEngine) GuardedBy(r *Run, rule string, spec GuardSpec) int {
 	for _, fn := range spec.Fields {
 		v := lookupField(ix.Pkg, spec.Type, fn)
 		if v == nil {
+			// a guarded field that no longer exists needs no guarding: when the struct is there and holds no field of the
+			// recorded type any more (neither directly nor in a new nested struct), the field was removed, not hidden
+			if fieldRemoved(ix.Pkg, spec.Type, fn) {
+				r.Note("guarded field " + spec.Type + "." + fn + " no longer exists (no field of its recorded type is left in the struct): nothing to guard")
+				continue
+			}
 			r.Missing(rule, shortPkg(ix.Pkg.PkgPath)+"."+spec.Type+"."+fn)
 			continue
 		}
